@@ -256,6 +256,94 @@ func (fi *fileInfo) mapKeys(name string) ([]string, error) {
 	return keys, nil
 }
 
+// callName is the called function's or method's bare name ("" for other call forms)
+func callName(ce *ast.CallExpr) string {
+	switch f := ce.Fun.(type) {
+	case *ast.SelectorExpr:
+		return f.Sel.Name
+	case *ast.Ident:
+		return f.Name
+	}
+	return ""
+}
+
+// flatNodes walks fd's body in source order and, at every call of a function or method declared in the same file,
+// continues inside that helper's body (depth-limited, each helper once per path): extracting part of a function into a
+// helper of the same file does not change what the patterns below see. visit gets every node in that order.
+func (fi *fileInfo) flatNodes(fd *ast.FuncDecl, visit func(ast.Node)) {
+	var walk func(fd *ast.FuncDecl, depth int, onPath map[string]bool)
+	walk = func(fd *ast.FuncDecl, depth int, onPath map[string]bool) {
+		if fd == nil || fd.Body == nil {
+			return
+		}
+		ast.Inspect(fd.Body, func(n ast.Node) bool {
+			if n == nil {
+				return true
+			}
+			visit(n)
+			if ce, ok := n.(*ast.CallExpr); ok && depth < 3 {
+				// only calls that certainly name a declaration of this file: a plain function, or a method called on
+				// the enclosing function's own receiver
+				name := ""
+				switch f := ce.Fun.(type) {
+				case *ast.Ident:
+					name = f.Name
+				case *ast.SelectorExpr:
+					if fd.Recv != nil && len(fd.Recv.List) == 1 && len(fd.Recv.List[0].Names) == 1 && isIdent(f.X, fd.Recv.List[0].Names[0].Name) {
+						name = f.Sel.Name
+					}
+				}
+				if callee, ok := fi.funcs[name]; ok && name != "" && !onPath[name] && callee != fd {
+					// arguments are evaluated before the call: walk them first, then the helper
+					for _, a := range ce.Args {
+						ast.Inspect(a, func(m ast.Node) bool {
+							if m != nil {
+								visit(m)
+							}
+							return true
+						})
+					}
+					onPath[name] = true
+					walk(callee, depth+1, onPath)
+					delete(onPath, name)
+					return false
+				}
+			}
+			return true
+		})
+	}
+	walk(fd, 0, map[string]bool{fd.Name.Name: true})
+}
+
+// keys of a map[string]bool composite literal whose value is the literal true
+func (fi *fileInfo) mapKeysTrue(name string) ([]string, error) {
+	e, ok := fi.vars[name]
+	if !ok {
+		return nil, fmt.Errorf("var %s not found", name)
+	}
+	cl, ok := e.(*ast.CompositeLit)
+	if !ok {
+		return nil, fmt.Errorf("%s is not a composite literal", name)
+	}
+	var keys []string
+	for _, el := range cl.Elts {
+		kv, ok := el.(*ast.KeyValueExpr)
+		if !ok {
+			return nil, fmt.Errorf("%s: element without key", name)
+		}
+		if !isIdent(kv.Value, "true") {
+			continue
+		}
+		k, err := fi.evalString(kv.Key)
+		if err != nil {
+			return nil, err
+		}
+		keys = append(keys, k)
+	}
+	sort.Strings(keys)
+	return keys, nil
+}
+
 // string literals of the case clauses that "return true" in a func(string) bool made of one switch
 func (fi *fileInfo) switchCases(name string) ([]string, error) {
 	fd, ok := fi.funcs[name]
@@ -492,42 +580,44 @@ func main() {
 			if !ok {
 				fail(fmt.Errorf("func not found"))
 			}
-			var selPos, startPos token.Pos
-			ast.Inspect(fd.Body, func(n ast.Node) bool {
+			// a look at the cancellation (a select statement, or a call of ctx.Err()) ahead of the first gate Start
+			selSeq, startSeq, seq := 0, 0, 0
+			fi.flatNodes(fd, func(n ast.Node) {
+				seq++
 				switch x := n.(type) {
 				case *ast.SelectStmt:
-					if selPos == 0 {
-						selPos = x.Pos()
+					if selSeq == 0 {
+						selSeq = seq
 					}
 				case *ast.CallExpr:
-					if se, ok := x.Fun.(*ast.SelectorExpr); ok && se.Sel.Name == "Start" && startPos == 0 {
-						startPos = x.Pos()
+					if se, ok := x.Fun.(*ast.SelectorExpr); ok {
+						if se.Sel.Name == "Start" && startSeq == 0 {
+							startSeq = seq
+						}
+						if se.Sel.Name == "Err" && isIdent(se.X, "ctx") && selSeq == 0 {
+							selSeq = seq
+						}
 					}
 				}
-				return true
 			})
-			fmt.Fprintf(&b, "Definition %s : bool := %v.\n", w.coqName, selPos != 0 && startPos != 0 && selPos < startPos)
+			fmt.Fprintf(&b, "Definition %s : bool := %v.\n", w.coqName, selSeq != 0 && startSeq != 0 && selSeq < startSeq)
 		case "callorder:CommitBatch<delete", "callorder:WriteAt<punchHole", "callorder:WriteAt<CopyN", "callorder:Set<nextPack", "callorder:recordMeta<Set":
 			fd, ok := fi.funcs[w.goName]
 			if !ok {
 				fail(fmt.Errorf("func not found"))
 			}
 			parts := strings.Split(strings.TrimPrefix(w.kind, "callorder:"), "<")
-			first := map[string]token.Pos{}
-			ast.Inspect(fd.Body, func(n ast.Node) bool {
+			first := map[string]int{}
+			seq := 0
+			fi.flatNodes(fd, func(n ast.Node) {
 				if ce, ok := n.(*ast.CallExpr); ok {
-					name := ""
-					switch f := ce.Fun.(type) {
-					case *ast.SelectorExpr:
-						name = f.Sel.Name
-					case *ast.Ident:
-						name = f.Name
-					}
-					if _, seen := first[name]; !seen && name != "" {
-						first[name] = ce.Pos()
+					seq++
+					if name := callName(ce); name != "" {
+						if _, seen := first[name]; !seen {
+							first[name] = seq
+						}
 					}
 				}
-				return true
 			})
 			a, okA := first[parts[0]]
 			bpos, okB := first[parts[1]]
@@ -568,13 +658,12 @@ func main() {
 			}
 			name := strings.TrimPrefix(w.kind, "selcalls:")
 			found := false
-			ast.Inspect(fd.Body, func(n ast.Node) bool {
+			fi.flatNodes(fd, func(n ast.Node) {
 				if ce, ok := n.(*ast.CallExpr); ok {
 					if se, ok := ce.Fun.(*ast.SelectorExpr); ok && se.Sel.Name == name {
 						found = true
 					}
 				}
-				return true
 			})
 			fmt.Fprintf(&b, "Definition %s : bool := %v.\n", w.coqName, found)
 		case "mapkeys", "switchcases":
@@ -584,6 +673,21 @@ func main() {
 				keys, err = fi.mapKeys(w.goName)
 			} else {
 				keys, err = fi.switchCases(w.goName)
+				if err == nil && len(keys) == 0 {
+					// no "case ...: return true": the same table as a map[string]bool the function indexes
+					if fd := fi.funcs[w.goName]; fd != nil {
+						ast.Inspect(fd.Body, func(n ast.Node) bool {
+							if ix, ok := n.(*ast.IndexExpr); ok {
+								if id, ok := ix.X.(*ast.Ident); ok && len(keys) == 0 {
+									if ks, e := fi.mapKeysTrue(id.Name); e == nil {
+										keys = ks
+									}
+								}
+							}
+							return true
+						})
+					}
+				}
 			}
 			if err != nil {
 				fail(err)
